@@ -94,6 +94,21 @@ def free_param_docs():
             if pid == "const-bounded":   # a non-const value parameter is a variable: no accepted twin exists for it
                 bound = X.nta(g, [tpl(params=ptype, decl=decl)], "P = T(1); system P;")
                 out.append(("free-param:%s:%s" % (pid, eid), "bound-twin", bound))
+    # template parameters that are constant in type but not known at compile time (const reference, const double), read
+    # directly and through template-local functions, in the compile-time contexts of the template itself
+    for pid, ptype, arg, gdecl in (("const-ref", "const int &r", "k", ""), ("const-double", "const double r", "1.5", ""),
+                                   ("const-ref-array", "const int &r[2]", "ka", "")):
+        rd = {"const-ref": "r", "const-double": "fint(r)", "const-ref-array": "r[0]"}[pid]
+        funs = ("int f1() { return %s; } int f2() { return f1() + 1; } int f3() { int t = 0; for (i : int[0,1]) { t += %s; } return t; }\n"
+                "int fk() { return k + 1; }\n") % (rd, rd)
+        for eid, e, role in (("direct", rd, "free"), ("via-function", "f1()", "free"), ("via-chain", "f2()", "free"), ("via-loop", "f3()", "free"),
+                             ("function-of-constants", "fk()", "bound-twin")):
+            for cid, ctx in (("array-size", "int arr[%s + 1];"), ("range-bound", "int[0, %s + 1] rr;"), ("initialiser", "int q = %s;"),
+                             ("local-const-then-size", "const int n = %s; int arr[n + 1];")):
+                if cid == "local-const-then-size" and role == "bound-twin":
+                    pass
+                doc = X.nta(GDECL + gdecl, [tpl(params=ptype, decl=funs + (ctx % e))], "P = T(%s); system P;" % arg)
+                out.append(("param-%s:%s:%s" % (pid, cid, eid), role, doc))
     # the free parameter reaches the array size through a chain of partial instantiations
     T2 = X.template("T", params="const int[0,1] pa, const int[0,1] pb", decl="int arr[pb + 1];", locations=[X.location("id0", "L0")], init="id0")
     for depth in (1, 2, 3):
